@@ -3,6 +3,7 @@ package main
 import (
 	"fmt"
 	"sort"
+	"strings"
 
 	"goa.design/goa/v3/dsl"
 	"goa.design/goa/v3/eval"
@@ -147,7 +148,7 @@ func (ms *MetaSpec) excluded(o Op) bool {
 }
 
 // metaMenu: the openapi:* keys that do not change which operations are listed.
-func metaMenu(r *vh.RNG, level string) [][]string {
+func metaMenu(r *vh.RNG, level string, key string) [][]string {
 	var out [][]string
 	pick := func(num, den int, m ...string) {
 		if r.Chance(num, den) {
@@ -172,7 +173,13 @@ func metaMenu(r *vh.RNG, level string) [][]string {
 		pick(1, 3, "openapi:tag:Op")
 		pick(1, 3, "openapi:summary", "method summary")
 		pick(1, 4, "openapi:deprecated", "true")
-		pick(1, 4, "openapi:operationId", "{service}.{method}(#{routeIndex})")
+		if r.Bool() {
+			pick(1, 3, "openapi:operationId", "{service}.{method}(#{routeIndex})")
+		} else {
+			// a literal id (no placeholder), distinct for each method: goa must still keep the ids
+			// of the routes of one endpoint apart
+			pick(1, 3, "openapi:operationId", "op_"+strings.ReplaceAll(key, ".", "_"))
+		}
 		pick(1, 4, "openapi:extension:x-op", `{"n":1}`)
 	case "file":
 		pick(1, 3, "openapi:tag:Files")
@@ -197,7 +204,7 @@ func randomMeta(d *dg.Design, r *vh.RNG) (*dg.Design, *MetaSpec) {
 			m[k] = append(m[k], v...)
 		}
 	}
-	ms.API = metaMenu(r, "api")
+	ms.API = metaMenu(r, "api", "")
 	attrMeta := func(a *dg.Attr, num, den int, what string) {
 		if r.Chance(num, den) {
 			a.Meta = append(a.Meta, vh.Pick(r, noGen))
@@ -217,7 +224,7 @@ func randomMeta(d *dg.Design, r *vh.RNG) (*dg.Design, *MetaSpec) {
 			add(ms.HTTPSvc, s.Name, vh.Pick(r, noGen))
 			feat["meta_nogen_http_service"] = true
 		}
-		add(ms.Service, s.Name, metaMenu(r, "service")...)
+		add(ms.Service, s.Name, metaMenu(r, "service", s.Name)...)
 		for _, m := range s.Methods {
 			key := s.Name + "." + m.Name
 			if r.Chance(1, 8) {
@@ -229,9 +236,9 @@ func randomMeta(d *dg.Design, r *vh.RNG) (*dg.Design, *MetaSpec) {
 				feat["meta_nogen_http_endpoint"] = true
 			}
 			if r.Bool() {
-				add(ms.Method, key, metaMenu(r, "method")...)
+				add(ms.Method, key, metaMenu(r, "method", key)...)
 			} else {
-				add(ms.HTTPEp, key, metaMenu(r, "method")...)
+				add(ms.HTTPEp, key, metaMenu(r, "method", key)...)
 			}
 			if m.Payload != nil {
 				// one more body shape designgen.Random never draws: when exactly one payload
@@ -292,7 +299,7 @@ func randomMeta(d *dg.Design, r *vh.RNG) (*dg.Design, *MetaSpec) {
 				add(ms.File, key, vh.Pick(r, noGen))
 				feat["meta_nogen_file_server"] = true
 			}
-			add(ms.File, key, metaMenu(r, "file")...)
+			add(ms.File, key, metaMenu(r, "file", key)...)
 		}
 	}
 	for _, m := range [][][]string{ms.API} {
